@@ -11,6 +11,7 @@ with these statements by the differential run and the independent reader, not by
 -/
 import RichchkModel.Model.RichEdit
 import RichchkModel.Lemmas.RichLemmas
+import RichchkModel.Lemmas.TrigLemmas
 namespace Richchk.Props.C04
 open Richchk
 
@@ -215,5 +216,19 @@ theorem c04_players {cfg : RichCfg} {ctx : EncCtx} {t : RTrigger} {d : Trigger}
 
 /-- hit points are written as floor(256 * value) -/
 theorem c04_hitpoints (h : Hp) : encodeHp h = h.num * 256 / h.den := rfl
+
+/-- **the saved bytes, read back through the layout's offsets, are exactly the encoded records**
+(closing the byte gap): whatever triggers the rich encoder emitted — each with the layout's number
+of conditions, actions and player bytes, which `c11_trigger_shape` guarantees — a reader that
+walks the TRIG payload with the specification's field widths (`readTriggers`; the generated
+layout equals the specification's by C06) obtains those very records.  With `c04_entry_fields`:
+the number found at the specification offset of field `f` of an authored entry is the encoding
+of the argument the format assigns to `f`. -/
+theorem c04_saved_bytes_hold_the_records {cw aw : List Nat} {nc na ew np pw cw' tsz : Nat}
+    (hsz : tsz = trigBodySize cw aw nc na ew np pw cw') (hpos : 0 < tsz)
+    {ts : List Trigger} {b : Bytes} (h : packTriggers cw aw ew pw cw' ts = .ok b)
+    (hall : ∀ t ∈ ts, t.conds.length = nc ∧ t.acts.length = na ∧ t.players.length = np) :
+    readTriggers cw aw nc na ew np pw cw' tsz b = .ok ts :=
+  readTriggers_packTriggers hsz hpos h hall
 
 end Richchk.Props.C04
